@@ -154,7 +154,7 @@ structure TxInv (db : Db) (s v k : Nat) : Prop where
   nodup : db.NoDup
   pw : (dbClocks db).Pairwise (Rk s v)
   bound : ∀ c ∈ dbClocks db, Own s v c → c.seq < k
-  le : ∀ c ∈ dbClocks db, c.dbv ≤ v
+  le : ∀ c ∈ dbClocks db, c.site = s → c.dbv ≤ v
 
 theorem mem_dbClocks {db : Db} {c : Clock} : c ∈ dbClocks db ↔ ∃ r ∈ db.rows, c ∈ rowClocks r := by
   unfold dbClocks; exact List.mem_flatMap
@@ -169,7 +169,7 @@ theorem TxInv.setRow {db : Db} {s v k k' : Nat} (h : TxInv db s v k) (r' : Row) 
     (hfresh : ∀ a ∈ rowClocks r', Own s v a →
       k ≤ a.seq ∨ ∃ old ∈ db.rows, old.key = r'.key ∧ a ∈ rowClocks old)
     (hb : ∀ a ∈ rowClocks r', Own s v a → a.seq < k')
-    (hle : ∀ a ∈ rowClocks r', a.dbv ≤ v) : TxInv (db.setRow r') s v k' := by
+    (hle : ∀ a ∈ rowClocks r', a.site = s → a.dbv ≤ v) : TxInv (db.setRow r') s v k' := by
   have hold := List.pairwise_flatMap.mp h.pw
   refine ⟨setRow_noDup h.nodup hnd, ?_, ?_, ?_⟩
   · unfold dbClocks
@@ -199,11 +199,11 @@ theorem TxInv.setRow {db : Db} {s v k k' : Nat} (h : TxInv db s v k) (r' : Row) 
     rcases mem_rows_setRow hx with rfl | hx
     · exact hb c hcx oc
     · have := h.bound c (mem_dbClocks.mpr ⟨x, hx, hcx⟩) oc; omega
-  · intro c hc
+  · intro c hc hs
     obtain ⟨x, hx, hcx⟩ := mem_dbClocks.mp hc
     rcases mem_rows_setRow hx with rfl | hx
-    · exact hle c hcx
-    · exact h.le c (mem_dbClocks.mpr ⟨x, hx, hcx⟩)
+    · exact hle c hcx hs
+    · exact h.le c (mem_dbClocks.mpr ⟨x, hx, hcx⟩) hs
 
 theorem TxInv.mono {db : Db} {s v k k' : Nat} (h : TxInv db s v k) (hk : k ≤ k') : TxInv db s v k' :=
   ⟨h.nodup, h.pw, fun c hc oc => Nat.lt_of_lt_of_le (h.bound c hc oc) hk, h.le⟩
@@ -292,7 +292,7 @@ theorem TxInv.ins {db : Db} {v k : Nat} (h : TxInv db db.site v k) (tbl pk : Str
   refine h.setRow _ (by split <;> omega) hp.2 (hp.1.imp (fun hab _ _ => hab)) ?_ ?_ ?_
   · intro a ha _; exact Or.inl (mem_rowClocks_insRow ha).2.2.1
   · intro a ha _; exact (mem_rowClocks_insRow ha).2.2.2
-  · intro a ha; exact Nat.le_of_eq (mem_rowClocks_insRow ha).2.1
+  · intro a ha _; exact Nat.le_of_eq (mem_rowClocks_insRow ha).2.1
 
 /-! ### UPDATE -/
 
@@ -318,7 +318,7 @@ structure UpdOK (r0 : Row) (s v k : Nat) (acc : Row × Nat) : Prop where
   pw : (rowClocks acc.1).Pairwise (Rk s v)
   bound : ∀ a ∈ rowClocks acc.1, Own s v a → a.seq < acc.2
   fresh : ∀ a ∈ rowClocks acc.1, Own s v a → k ≤ a.seq ∨ a ∈ rowClocks r0
-  le : ∀ a ∈ rowClocks acc.1, a.dbv ≤ v
+  le : ∀ a ∈ rowClocks acc.1, a.site = s → a.dbv ≤ v
   ge : k ≤ acc.2
 
 theorem UpdOK.step {r0 : Row} {s v k : Nat} {r : Row} {sq : Nat} (h : UpdOK r0 s v k (r, sq))
@@ -353,10 +353,10 @@ theorem UpdOK.step {r0 : Row} {s v k : Nat} {r : Row} {sq : Nat} (h : UpdOK r0 s
     rcases mem_rowClocks_setCell ha with rfl | ha
     · exact Or.inl h.ge
     · exact h.fresh a ha oa
-  · intro a ha
+  · intro a ha hs
     rcases mem_rowClocks_setCell ha with rfl | ha
     · exact Nat.le_refl _
-    · exact h.le a ha
+    · exact h.le a ha hs
   · have := h.ge; simp only at this ⊢; omega
 
 theorem foldl_inv {α β : Type} {P : β → Prop} (f : β → α → β) (hf : ∀ b a, P b → P (f b a))
@@ -369,7 +369,7 @@ theorem foldl_inv {α β : Type} {P : β → Prop} (f : β → α → β) (hf : 
 
 theorem rowClocks_of_mem {db : Db} {s v k : Nat} (h : TxInv db s v k) {r : Row} (hr : r ∈ db.rows) :
     (rowClocks r).Pairwise (Rk s v) ∧ (∀ a ∈ rowClocks r, Own s v a → a.seq < k) ∧
-    (∀ a ∈ rowClocks r, a.dbv ≤ v) :=
+    (∀ a ∈ rowClocks r, a.site = s → a.dbv ≤ v) :=
   ⟨(List.pairwise_flatMap.mp h.pw).1 r hr,
    fun a ha => h.bound a (mem_dbClocks.mpr ⟨r, hr, ha⟩),
    fun a ha => h.le a (mem_dbClocks.mpr ⟨r, hr, ha⟩)⟩
@@ -454,7 +454,7 @@ theorem applyStmt_inv {db : Db} {v k : Nat} (hi : TxInv db db.site v k) {st : St
         · simp [rowClocks]
         · intro a ha _; simp [rowClocks] at ha; subst ha; exact Or.inl (Nat.le_refl _)
         · intro a ha _; simp [rowClocks] at ha; subst ha; simp
-        · intro a ha; simp [rowClocks] at ha; subst ha; simp
+        · intro a ha _; simp [rowClocks] at ha; subst ha; simp
 
 theorem applyStmts_inv {stmts : List Stmt} {db : Db} {v k : Nat} (hi : TxInv db db.site v k)
     {db' : Db} {k' : Nat} (h : applyStmts db v k stmts = .ok (db', k')) :
@@ -476,25 +476,25 @@ theorem applyStmts_inv {stmts : List Stmt} {db : Db} {v k : Nat} (hi : TxInv db 
 produced yet -/
 structure DbOk (db : Db) : Prop where
   nodup : db.NoDup
-  le : ∀ c ∈ dbClocks db, c.dbv ≤ db.dbv
+  le : ∀ c ∈ dbClocks db, c.site = db.site → c.dbv ≤ db.dbv
 
 theorem DbOk.txInv {db : Db} (h : DbOk db) : TxInv db db.site (db.dbv + 1) 0 := by
   refine ⟨h.nodup, ?_, ?_, ?_⟩
   · refine List.pairwise_of_forall_mem_list ?_
     intro a ha b _ oa _
-    have := h.le a ha
+    have := h.le a ha oa.1
     have := oa.2
     omega
   · intro c hc oc
-    have := h.le c hc
+    have := h.le c hc oc.1
     have := oc.2
     omega
-  · intro c hc
-    have := h.le c hc
+  · intro c hc hs
+    have := h.le c hc hs
     omega
 
 theorem dbOk_empty (s : Nat) : DbOk { site := s } :=
-  ⟨⟨List.Pairwise.nil, fun _ h => by cases h⟩, fun _ h => by simp [dbClocks] at h⟩
+  ⟨⟨List.Pairwise.nil, fun _ h => by cases h⟩, fun _ h _ => by simp [dbClocks] at h⟩
 
 theorem le_foldl_max' {cs : List Chg} {x : Chg} (h : x ∈ cs) (m : Nat) :
     x.seq ≤ cs.foldl (fun m c => Nat.max m c.seq) m := by
@@ -539,7 +539,7 @@ theorem localTx_some {db : Db} (hok : DbOk db) {stmts : List Stmt} {db' : Db} {v
         · rintro ⟨h1, h2, h3, _⟩; exact ⟨h1, h2, h3⟩
         · rintro ⟨h1, h2, h3⟩; exact ⟨h1, h2, h3, le_foldl_max h1 0⟩
       refine ⟨rfl, rfl, hs, ⟨inv.nodup, ?_⟩, ?_, ?_, hmem⟩
-      · intro c hc; exact inv.le c hc
+      · intro c hc hs; exact inv.le c hc (hs.trans ‹_›)
       · intro e; rw [← hchs] at e; simp [e] at hne
       · rw [← hchs]
         apply sortBySeq_strict
